@@ -375,3 +375,105 @@ def make_putlock(n):
     s = P.LaxBoundedSemaphore(n)
     s._cond = O.SimCondition(O.SimLock())
     return s
+
+
+# ---------------------------------------------------------------------- spawn flavour (real _launch)
+class _SimFdWriter:
+    """What io.open(fd, 'wb', closefd=False) gives popen_spawn_posix: a writer onto a simulated descriptor."""
+
+    def __init__(self, fd):
+        self.fd = fd
+
+    def write(self, data):
+        k = state.K
+        data = bytes(data)
+        off = 0
+        while off < len(data):
+            off += k.write(self.fd, data[off:])
+        return len(data)
+
+    def __enter__(self):
+        return self
+
+    def __exit__(self, *exc):
+        return False
+
+
+class _IoShim:
+    BytesIO = io.BytesIO
+
+    @staticmethod
+    def open(fd, mode='rb', closefd=True):
+        return _SimFdWriter(fd)
+
+
+def _sim_spawnv_passfds(path, args, passfds):
+    """The fresh interpreter of the spawn start method: a new simulated process that inherits exactly the
+    descriptors in `passfds`, reads the two pickles its parent writes to the pipe named on the command line
+    (preparation data, process object) and runs the process object."""
+    import re as _re
+    k = state.K
+    m = _re.search(r'pipe_handle=(\d+)', ' '.join(args))
+    child_r = int(m.group(1))
+    me = k.cur().proc
+    simfds = [fd for fd in passfds if fd in me.fds]
+
+    def main():
+        chunks = []
+        while True:
+            b = k.read(child_r, 65536)
+            if not b:
+                break
+            chunks.append(b)
+        k.close(child_r)
+        bio = io.BytesIO(b''.join(chunks))
+        pickle.load(bio)                    # preparation data (sys.path, argv, ...): nothing to prepare here
+        obj = pickle.load(bio)
+        code = obj._bootstrap() if k.cfg.get('real_bootstrap') else child_bootstrap(obj)
+        k.exit_now(code)
+    child = k.create_process('W', main, inherit_fds=simfds)
+    child.sig[int(_signal.SIGINT)] = _default_int_handler
+    child.sig[int(_signal.SIGPIPE)] = _signal.SIG_IGN
+    hook = k.cfg.get('_on_child')
+    if hook is not None:
+        hook(child, None)
+    return child.pid
+
+
+def install_spawn():
+    """popen_spawn_posix.Popen._launch runs as it is; what it calls to reach the operating system is simulated."""
+    if 'spawn' in seams._installed:
+        return
+    install_pool()
+    seams._installed.add('spawn')
+    import billiard.popen_spawn_posix as PSP
+    import billiard.semaphore_tracker as ST
+    _set = seams._set
+    _set(PSP, 'os', seams.os_shim)
+    _set(PSP, 'io', _IoShim)
+    _set(PSP, 'spawnv_passfds', _sim_spawnv_passfds)
+
+    def _tracker_fd():
+        k = state.K
+        p = k.cur().proc
+        fd = p.info.get('tracker_fd')
+        if fd is None or fd not in p.fds:
+            _r, fd = k.pipe()
+            p.info['tracker_fd'] = fd
+        return fd
+    _set(ST, 'getfd', _tracker_fd)
+
+
+class SimSpawnProcess(SimProcess):
+    @staticmethod
+    def _Popen(process_obj):
+        import billiard.popen_spawn_posix as PSP
+        return PSP.Popen(process_obj)
+
+
+class SpawnContext(SimContext):
+    Process = SimSpawnProcess
+
+
+def spawn_context():
+    return SpawnContext()
